@@ -215,6 +215,33 @@ def translate(repo: Path) -> dict:
                     fresh = False     # a cache shared between paths/phases: theorem uwt_write_confined will not compile
     if ncalls != (2 if delete_guarded else 1):
         raise T.TranslateError(f"update_working_tree: {ncalls} verify_leading_dirs calls")
+    # gitlink branch: does the "is a directory already there?" test of _transition_to_submodule follow symlinks?
+    ts = T.find_def(tree, "_transition_to_submodule")
+    ifs = [n for n in ts.body if isinstance(n, ast.If)]
+    if len(ifs) != 1:
+        raise T.TranslateError(f"_transition_to_submodule: expected one top-level if, found {len(ifs)}")
+    test_src = ast.unparse(ifs[0].test)
+    if test_src == "current_stat is not None and stat.S_ISDIR(current_stat.st_mode)":
+        gitlink_follows = False
+        want_body = ("ensure_submodule_placeholder(repo, path)", "if current_stat is not None:\n    _remove_file_with_readonly_handling(full_path)\nensure_submodule_placeholder(repo, path)")
+        got = ("\n".join(ast.unparse(x) for x in ifs[0].body if not (isinstance(x, ast.Expr) and isinstance(x.value, ast.Constant))),
+               "\n".join(ast.unparse(x) for x in ifs[0].orelse))
+        if got != want_body:
+            raise T.TranslateError(f"_transition_to_submodule: unexpected branches {got!r}")
+    elif "os.path.isdir(" in test_src or "os.path.exists(" in test_src or "os.stat(" in test_src:
+        gitlink_follows = True        # theorem uwt_confined will not compile
+    else:
+        raise T.TranslateError(f"_transition_to_submodule: unrecognised directory test `{test_src}`")
+    if "modify_stat" not in src_uw or "_transition_to_submodule(repo, path, full_path, modify_stat, change.new, index)" not in src_uw:
+        raise T.TranslateError("update_working_tree: gitlink branch no longer receives the lstat result")
+    stree = T.module_ast(repo / "dulwich" / "submodule.py")
+    ph = ast.unparse(T.find_def(stree, "ensure_submodule_placeholder"))
+    for frag in ("if not os.path.exists(full_path):\n        os.makedirs(full_path)", "git_file_path = os.path.join(full_path, b'.git')",
+                 "if not os.path.exists(git_file_path):", "with open(git_file_path, 'wb') as f:",
+                 "depth = submodule_path.count(b'/') + 1", "relative_git_dir = b'../' * depth + b'.git/modules/' + submodule_path",
+                 "f.write(b'gitdir: ' + relative_git_dir + b'\\n')"):
+        if frag not in ph:
+            raise T.TranslateError(f"ensure_submodule_placeholder: `{frag}` not found")
     # patch.py: both paths of a rename/copy header are vetted before anything is read or written
     # patch.py: every open(<target>, "wb") of the apply code is directly preceded by _remove_symlink_at_target(<target>)
     ptree = T.module_ast(repo / "dulwich" / "patch.py")
@@ -295,6 +322,9 @@ def cleanupExecBits : Nat := {cm_or}
 def deleteGuarded : Bool := {str(delete_guarded).lower()}
 /-- does every `verify_leading_dirs` call of `update_working_tree` (and `_lstat_tracked_path`) get a fresh `[]`? -/
 def uwtFreshCache : Bool := {str(fresh).lower()}
+/-- does the "is a directory already there?" test of `_transition_to_submodule` follow symlinks (`os.path.isdir`)
+rather than look at the lstat result (`stat.S_ISDIR(current_stat.st_mode)`)? -/
+def gitlinkDirTestFollows : Bool := {str(gitlink_follows).lower()}
 end Dulwich.Gen.PathSafe
 """
     return {"PathSafe": src}
@@ -521,6 +551,7 @@ ENTITLED = {
     "checkout": ("index",) + _REFS, "build_index": ("index",), "checkout_paths": ("index",),
     "stash_pop": ("index", "refs/stash", "logs/"), "patch": ("index",), "patch_to": ("index",),
     "pull": ("index", "FETCH_HEAD") + _REFS,
+    "sparse": ("index", "info/sparse-checkout", "config"),
 }
 _RE_HEAD = re.compile(rb"^(ref: refs/[\w/.-]+|[0-9a-f]{40})\n$")
 _RE_REF = re.compile(rb"^[0-9a-f]{40}\n$")
@@ -781,6 +812,30 @@ def impl_scenario(a):
         op = st["op"]
         pre_links = [[x[0], x[3]] for x in _wt_listing(wt) if x[1] == "link"]
         old_index, old_head = _old_paths(r, "index"), _old_paths(r, "head")
+        if op == "user":
+            # the "user" changes the work tree by hand between operations ("on top of any earlier checkout"):
+            # [path, kind, payload] with kind rm | file | dir | link; paths are plain relative names inside wt
+            for ph, kind, pl in st["set"]:
+                rel = bytes.fromhex(ph)
+                assert rel and not rel.startswith(b"/") and b".." not in rel.split(b"/") and rel.split(b"/")[0] != b".git"
+                tgt = os.path.join(os.fsencode(wt), rel)
+                if os.path.islink(tgt) or os.path.isfile(tgt):
+                    os.unlink(tgt)
+                elif os.path.isdir(tgt):
+                    shutil.rmtree(tgt)
+                if kind != "rm":
+                    os.makedirs(os.path.dirname(tgt), exist_ok=True)
+                if kind == "file":
+                    with open(tgt, "wb") as f:
+                        f.write(bytes.fromhex(pl))
+                elif kind == "dir":
+                    os.makedirs(tgt)
+                    with open(os.path.join(tgt, b"inner"), "wb") as f:
+                        f.write(b"user file\n")
+                elif kind == "link":
+                    os.symlink(bytes.fromhex(pl), tgt)
+            res.append({"op": "user", "out": "ok", "diff": [], "wt": _wt_listing(wt), "links": [], "old_index": [], "old_head": []})
+            continue
         if op == "pull" and os.path.isdir(os.path.join(base, "src")):
             # (harness side, before the snapshot) the clone source publishes a commit with tree t on top of our HEAD
             sr = Repo(os.path.join(base, "src"))
@@ -814,6 +869,8 @@ def impl_scenario(a):
                 src = os.path.join(base, "src")
                 porcelain.pull(r, src, refspecs=[b"refs/heads/pullme"], force=bool(st.get("force")),
                                errstream=io.BytesIO(), outstream=io.BytesIO())
+            elif op == "sparse":
+                porcelain.sparse_checkout(r, patterns=list(st["patterns"]), force=bool(st.get("force")), cone=False)
             elif op == "patch":
                 porcelain.apply_patch(r, io.BytesIO(bytes.fromhex(st["patch"])), strip=st.get("strip", 1))
             elif op == "patch_to":
@@ -1031,7 +1088,7 @@ def impl_uwt_write(a):
     entries = []
     for ch in changes:
         e = ch.new
-        c = r.object_store[e.sha].as_raw_string()
+        c = b"" if (e.mode & 0o170000) == 0o160000 else r.object_store[e.sha].as_raw_string()
         if (e.mode & 0o170000) == 0o120000 and c.startswith(bb + b"/"):
             c = c[len(bb):]
         entries.append([e.path.hex(), e.mode, c.hex()])
@@ -1210,6 +1267,26 @@ def classify(step: dict, sr: dict, base: str):
                     break
         if allowed and all(os.fsencode(d[0]) in allowed for d in removed):
             return "uwt-delete-through-symlinked-leading-dir"
+    if op == "sparse" and diff:
+        idx = [bytes.fromhex(p) for p in sr["old_index"]]
+        by_name, by_link = set(), set()
+        for p in idx:
+            comps = p.split(b"/")
+            if any(c in (b"", b".", b"..") or dotgit_like(c, "b") for c in comps):
+                q = pp.normpath(b"outer/wt/" + p)
+                while q not in (b"", b".", b"outer", b"outer/wt"):
+                    by_name.add(q)
+                    q = pp.dirname(q)
+            elif any(b"/".join(comps[:k]) in links for k in range(1, len(comps))):
+                q = _resolve_rel(p, links, base)
+                while q and q not in (b"", b".", b"outer", b"outer/wt"):
+                    by_link.add(q)
+                    q = pp.dirname(q)
+        touched = {os.fsencode(d[0]) for d in diff}
+        if touched <= by_name:
+            return "sparse-unvalidated-index-name"
+        if touched <= by_link | by_name:
+            return "sparse-through-leading-symlink"
     if op in ("patch", "patch_to") and changed and not removed:
         dests = {_resolve_rel(l, links, base) for l in links}
         if all(os.fsencode(d[0]) in dests for d in changed):
@@ -1223,6 +1300,8 @@ def judge(ctx, stream: str, case: dict, res, base: str):
     steps = case["steps"]
     for i, sr in enumerate(res):
         step = steps[i] if i < len(steps) else {}
+        if sr["op"] == "user":
+            continue
         if sr["diff"]:
             cls = classify(step, sr, base)
             ctx.oracle_fail(stream, {**case, "failing_step": i, "diff": sr["diff"][:6], "outcome": sr["out"]},
@@ -1242,6 +1321,8 @@ def judge(ctx, stream: str, case: dict, res, base: str):
                     if comp == b".git" and typ == "file" and bytes.fromhex(extra) == b"gitdir: " and b"/" in rel:
                         continue   # submodule placeholder written by dulwich itself below a gitlink path
                     cls = None
+                    if sr["op"] == "sparse":
+                        cls = "sparse-unvalidated-index-name"
                     if sr["op"] in ("patch", "patch_to"):
                         # same defect as the known patch finding when the name was created by writing THROUGH a
                         # symlink that sat at the patch target (final component) before the step
@@ -1343,6 +1424,108 @@ def rc_patch_scenarios():
     return out
 
 
+KINDS = ["file", "exec", "ln_sib", "ln_outer", "ln_git", "ln_gitsub", "ln_file", "ln_dangling", "dir", "gitlink"]
+_KIND_TARGET = {"ln_sib": b"sibdir", "ln_outer": b"../outside_dir", "ln_git": b".git", "ln_gitsub": b".git/canary_dir",
+                "ln_file": b"../outside_dir/x", "ln_dangling": b"nowhere"}
+
+
+def kind_items(P: bytes, kind: str) -> list:
+    """tree items that make path P be of the given kind (link targets are relative to the link's directory)"""
+    up = b"../" * P.count(b"/")
+    if kind == "file":
+        return [(P, "f", b"file\n")]
+    if kind == "exec":
+        return [(P, "f", b"exec\n", 0o100755)]
+    if kind == "dir":
+        return [(P + b"/inner", "f", b"inner\n"), (P + b"/sub/deep", "f", b"deep\n")]
+    if kind == "gitlink":
+        return [(P, "g", None)]
+    t = _KIND_TARGET[kind]
+    return [(P, "l", t if kind == "ln_dangling" else up + t)]
+
+
+def kind_user_set(P: bytes, kind: str) -> list:
+    """the same kind put on disk by hand (gitlink: an empty directory with a .git file is not created by hand: use dir)"""
+    up = b"../" * P.count(b"/")
+    if kind in ("file", "exec"):
+        return [[P.hex(), "file", b"user\n".hex()]]
+    if kind in ("dir", "gitlink"):
+        return [[P.hex(), "dir", ""]]
+    t = _KIND_TARGET[kind]
+    return [[P.hex(), "link", (t if kind == "ln_dangling" else up + t).hex()]]
+
+
+def kind_collision_scenarios(triples_rng=None, n_triples=0):
+    """Every ordered pair of kinds at the same path (top level, and below a real directory), each as a plain switch
+    and with HEAD/index moved away from the disk in between (reset --mixed / --soft, stash pop, manual change by the
+    user); the same below a leading directory that is a symlink on disk."""
+    out = []
+    base_items = [KEEP, (b"sibdir/f", "f", b"sib\n")]
+    T0 = mk_tree(base_items)
+    for P in (b"p", b"rd/p"):
+        extra = [(b"rd/other", "f", b"o\n")] if b"/" in P else []
+        T0p = mk_tree(base_items + extra)
+        for k1 in KINDS:
+            for k2 in KINDS:
+                T1 = mk_tree(base_items + extra + kind_items(P, k1))
+                T2 = mk_tree(base_items + extra + kind_items(P, k2))
+                trees = [T0p, T1, T2]
+                tag = f"kinds:{k1}>{k2}:{P.decode()}"
+                out.append((tag + ":plain", {"trees": trees, "steps": [_step("reset_hard", 1), _step("reset_hard", 2)], "cfg": {}}))
+                out.append((tag + ":mixed", {"trees": trees, "steps": [_step("reset_hard", 1), _step("reset_mixed", 0), _step("reset_hard", 2)], "cfg": {}}))
+                out.append((tag + ":soft", {"trees": trees, "steps": [_step("reset_hard", 1), _step("reset_soft", 0), _step("checkout_force", 2)], "cfg": {}}))
+                if P == b"p":
+                    out.append((tag + ":user", {"trees": trees, "steps": [_step("reset_hard", 0), {"op": "user", "set": kind_user_set(P, k1)},
+                                                                          _step("reset_hard", 2)], "cfg": {}}))
+                    out.append((tag + ":stash", {"trees": trees, "steps": [_step("reset_hard", 1), _step("reset_mixed", 0), _step("stash_pop", 2)], "cfg": {}}))
+    # below a leading directory that is a symlink on disk while the index no longer says so
+    for T in (b"../outside_dir", b".git", b".git/canary_dir", b"sibdir"):
+        for k2 in KINDS:
+            trees = [T0, mk_tree(base_items + [(b"ld", "l", T)]), mk_tree(base_items + kind_items(b"ld/p", k2))]
+            out.append((f"kinds:leading:{k2}:{T.decode()}", {"trees": trees, "steps": [_step("reset_hard", 1), _step("reset_mixed", 0), _step("reset_hard", 2)], "cfg": {}}))
+            out.append((f"kinds:leading-user:{k2}:{T.decode()}", {"trees": trees, "steps": [_step("reset_hard", 0), {"op": "user", "set": [[b"ld".hex(), "link", T.hex()]]},
+                                                                                            _step("checkout_force", 2)], "cfg": {}}))
+    if triples_rng is not None:
+        for _ in range(n_triples):
+            P = triples_rng.choice([b"p", b"rd/p"])
+            extra = [(b"rd/other", "f", b"o\n")] if b"/" in P else []
+            ks = [triples_rng.choice(KINDS) for _ in range(3)]
+            trees = [mk_tree(base_items + extra)] + [mk_tree(base_items + extra + kind_items(P, k)) for k in ks]
+            mid = lambda: _step(triples_rng.choice(["reset_mixed", "reset_soft"]), 0)
+            fin = lambda t: _step(triples_rng.choice(["reset_hard", "checkout_force", "stash_pop"]), t)
+            steps = [_step("reset_hard", 1)]
+            for t in (2, 3):
+                if triples_rng.random() < 0.7:
+                    steps.append(mid())
+                if triples_rng.random() < 0.3:
+                    steps.append({"op": "user", "set": kind_user_set(P, triples_rng.choice(KINDS))})
+                steps.append(fin(t))
+            out.append(("kinds3:" + ">".join(ks), {"trees": trees, "steps": steps, "cfg": {}}))
+    return out
+
+
+def sparse_scenarios():
+    """sparse checkout materialises / removes INDEX paths: hostile index contents (reset --mixed does not validate
+    names) and a leading symlink on disk."""
+    out = []
+    T0 = mk_tree([KEEP])
+    Traw = [E_blob(b"keep", b"keep\n"), E_blob(b"../outside_dir/pwn", b"pwned\n"), E_blob(b".git/hooks/pwn", b"#!/bin/sh\n"),
+            E_blob(b".GIT/hooks/pwn", b"x\n"), E_tree(b"ok", [E_blob(b"f", b"f\n")])]
+    out.append(("sparse:rawnames", {"trees": [T0, Traw], "cfg": {},
+                                    "steps": [_step("reset_hard", 0), _step("reset_mixed", 1), {"op": "sparse", "patterns": ["*"]}]}))
+    for T in (b"../outside_dir", b".git/canary_dir"):
+        Tl = mk_tree([KEEP, (b"d", "l", T)])
+        Td = mk_tree([KEEP, (b"d/x", "f", b"precious x\n"), (b"d/pwn", "f", b"pwned\n")])
+        out.append(("sparse:leading-include", {"trees": [Tl, Td], "cfg": {},
+                                               "steps": [_step("reset_hard", 0), _step("reset_mixed", 1), {"op": "sparse", "patterns": ["*"]}]}))
+        out.append(("sparse:leading-exclude", {"trees": [Tl, Td], "cfg": {},
+                                               "steps": [_step("reset_hard", 0), _step("reset_mixed", 1), {"op": "sparse", "patterns": ["/keep"], "force": 1}]}))
+    Tplain = mk_tree([KEEP, (b"d/x", "f", b"x\n"), (b"e/y", "f", b"y\n")])
+    out.append(("sparse:benign", {"trees": [Tplain], "cfg": {}, "steps": [_step("reset_hard", 0), {"op": "sparse", "patterns": ["/d/"]},
+                                                                         {"op": "sparse", "patterns": ["*"]}]}))
+    return out
+
+
 FIRST_OPS = ["clone", "reset_hard", "checkout", "checkout_force", "build_index", "stash_pop", "clone_nc"]
 NEXT_OPS = ["reset_hard", "checkout", "checkout_force", "build_index", "stash_pop", "reset_mixed", "reset_soft", "patch_to", "pull_force"]
 
@@ -1441,6 +1624,8 @@ def fixed_scenarios():
                                                         "steps": [_step("reset_hard", 0), {"op": "patch", "patch": _patch_new(R).hex()},
                                                                   {"op": "patch", "patch": _patch_new(R).hex(), "strip": 0}], "cfg": cfg}))
     out += rc_patch_scenarios()
+    out += kind_collision_scenarios()
+    out += sparse_scenarios()
     for m in MODES:
         spec = [E_blob(b"keep"), E_blob(b"f", b"x\n", m), E_tree(b"d", [E_blob(b"g", b"y\n", m)])]
         for op in ("clone", "reset_hard", "build_index", "stash_pop", "patch_to"):
@@ -1464,8 +1649,9 @@ def random_scenario(rng):
                 p, it = d, (d, "l", rng.choice(LINK_TARGETS))
             elif k < 0.4:
                 p, it = d, (d, "f", b"file\n", rng.choice(MODES))
-            elif k < 0.45:
-                p, it = d, (d, "g", None)
+            elif k < 0.47:
+                p = d if rng.random() < 0.6 else d + b"/" + rng.choice([b"sub", b"x", b"l2"])
+                it = (p, "g", None)
             elif k < 0.55:
                 sub = rng.choice([b"l2", b"sub"])
                 p, it = d + b"/" + sub, (d + b"/" + sub, "l", rng.choice(LINK_TARGETS + [b"../..", b"../../outside_dir"]))
@@ -1496,6 +1682,14 @@ def random_scenario(rng):
         steps.append(_step(op, t, rng.randrange(len(trees))))
     if steps[0]["op"] not in ("clone", "clone_nc"):
         steps = [st if st["op"] != "pull" else _step("reset_hard", st["t"]) for st in steps]
+    if rng.random() < 0.3 and len(steps) >= 2:
+        # the user changes the disk by hand between two operations
+        pth = rng.choice(dirs) if rng.random() < 0.7 else rng.choice(dirs) + b"/" + rng.choice([b"sub", b"x", b"l2"])
+        kind = rng.choice(KINDS)
+        steps.insert(rng.randrange(1, len(steps)), {"op": "user", "set": kind_user_set(pth, kind) if b"/" not in pth or kind not in _KIND_TARGET
+                                                    else [[pth.hex(), "link", rng.choice(LINK_TARGETS[:6]).hex()]]})
+    if rng.random() < 0.1:
+        steps.append({"op": "sparse", "patterns": rng.choice([["*"], ["/keep"], ["/d/"]]), "force": int(rng.random() < 0.5)})
     if rng.random() < 0.15:
         steps.append({"op": "patch", "patch": _patch_new(rng.choice([b"d", b"e", b"lnk", b"d/x", b"lnk/pwn", b"d/sub/pwn"])).hex()})
     cfg = rng.choice([{}, {}, {}, {"protectNTFS": False}, {"protectHFS": True}, {"symlinks": True, "filemode": False}])
@@ -1542,7 +1736,7 @@ BIFT_TARGETS = [b"../outside_dir", b"..", b"/outer/outside_dir", b"e", b"d", b".
                 b"../../outer/outside_dir/sub", b"loop"]
 
 
-def gen_bift_case(rng, gitlinks=True):
+def gen_bift_case(rng, gitlinks=True, more_gitlinks=False):
     """initial directory tree (work tree `outer/wt` + canaries + leftovers of an earlier checkout) and a tree."""
     nodes = [[b"outer".hex(), "d"], [b"outer/wt".hex(), "d"], [b"outer/outside_dir".hex(), "d"],
              [b"outer/outside_dir/sub".hex(), "d"], [b"outer/outside_dir/x".hex(), "f", 0o644, b"precious".hex()],
@@ -1580,8 +1774,9 @@ def gen_bift_case(rng, gitlinks=True):
             p, it = n, (n, "l", rng.choice(BIFT_TARGETS))
         elif k < 0.3:
             p, it = n, (n, "f", rng.choice([b"data\n", b"new", b"old"]), rng.choice(MODES))
-        elif k < 0.35 and gitlinks:
-            p, it = n, (n, "g", None)
+        elif k < (0.42 if more_gitlinks else 0.35) and gitlinks:
+            p = n if rng.random() < 0.6 else n + b"/" + rng.choice([b"sub", b"x", b"l", b"f"])
+            it = (p, "g", None)
         elif k < 0.42:
             r = rng.choice([b"../outside_dir/pwn", b"d/../../outside_dir/pwn", b".git/x", b"d/.GIT/x", b"d//x", b"./x", b"d/.git /x", b"git~1"])
             p, it = r, (r, "F", b"raw")
@@ -1721,11 +1916,11 @@ def _stream_uwt_delete(ctx, scale=1):
 
 
 def _stream_uwt_write(ctx, scale=1):
-    """(b'') the add/modify phase of update_working_tree (blob/symlink entries): model `uwtWritePhaseG` vs the real
+    """(b'') the add/modify phase of update_working_tree (blob, symlink and gitlink entries): model `uwtPhaseAllG` vs the real
     function on real directory trees, node by node; built-in oracle: nothing outside the work tree changes."""
     w = core.Worker("py", mem_mb=2048)
     try:
-        cases = [gen_bift_case(ctx.rng, gitlinks=False) for _ in range(ctx.budget(300) * scale)]
+        cases = [gen_bift_case(ctx.rng, gitlinks=True, more_gitlinks=True) for _ in range(ctx.budget(300) * scale)]
         lines, idx = [], []
         for i, c in enumerate(cases):
             rep = w.ask({"mod": MOD, "op": "uwt_write", "args": {**c, "base": str(ctx.scratch / "p" / "q" / f"w{i}"),
@@ -1778,12 +1973,16 @@ def _stream_sequences(ctx, scale=1, full=False, stream_prefix="seq"):
             run_scenario(ctx, w, "seq.corpus", c["case"], f.stem, n)   # past failures: must hold now
             n += 1
         fixed = fixed_scenarios()
+        fixed += [x for x in kind_collision_scenarios(ctx.rng, ctx.budget(25)) if x[0].startswith("kinds3:")]
         ctx.extra_cov["fixed_scenarios_total"] = len(fixed)
         if not full and not ctx.thorough and not (ctx.lean is not None and not ctx.lean.ok):
             # quick tier: every template for the key link targets, a seed-dependent third of the rest
             fixed = [(t, c) for t, c in fixed
                      if (t.split(":", 1)[0] in ("collide", "patch") and t.split(":", 1)[1].encode() in KEY_TARGETS)
-                     or t == "modes" or t.startswith("rcpatch:") and ":headers:" in t or ctx.rng.random() < 0.34]
+                     or t == "modes" or t.startswith("rcpatch:") and ":headers:" in t or t.startswith("sparse:")
+                     or (t.startswith("kinds:") and "gitlink" in t and t.endswith((":p:mixed", ":p:soft")))
+                     or (t.startswith("kinds:leading") and ctx.rng.random() < 0.4)
+                     or ctx.rng.random() < (0.06 if t.startswith("kinds:") else 0.34)]
         ctx.extra_cov["fixed_scenarios_run"] = len(fixed)
         for tag, case in fixed:
             run_scenario(ctx, w, stream_prefix + ".fixed", case, tag.split(":")[0], n)
